@@ -52,6 +52,51 @@ fn slow_glide(st: &mut Stream) {
     }
 }
 
+/// COMPOSITION: a converter does not care what delivers its source frames. The same frames through transparent
+/// carriers — `buffered` over a rotated ring buffer, a single bus output, `delay(0)`, `by_ref` — and then through the
+/// converter (linear and floor, several ratios) and on through `rms` and `detect_envelope` adaptors must give the very
+/// frames of the converter over the plain source (oracle only)
+fn compositions(st: &mut Stream, rng: &mut Rng) {
+    use dasp_ring_buffer as ring_buffer;
+    use dasp_signal::bus::SignalBus;
+    use dasp_signal::envelope::SignalEnvelope;
+    use dasp_signal::rms::SignalRms;
+    for round in 0..40usize {
+        let len = 3 + rng.usize_below(40);
+        let src: Vec<[f64; 1]> = (0..len).map(|i| [((i * 37 + round) % 64) as f64 / 32.0 - 1.0]).collect();
+        let ratio = *rng.pick(&[0.5, 1.0, 1.5, 0.75, 2.0, 1.0 / 3.0, 0.8, 2.5]);
+        let cap = 1 + rng.usize_below(9);
+        let start = rng.usize_below(cap);
+        let n = ((len as f64 / ratio) as usize).min(200) + 4;
+        let case = format!("source {:?}, ratio {}, buffered capacity {} at start {}", src, ratio, cap, start);
+        mark(0, &case);
+        let r = guarded(|| {
+            let mut plain = signal::from_iter(src.clone());
+            let (a, b) = (plain.next(), plain.next());
+            let lin: Vec<[f64; 1]> = plain.scale_hz(Linear::new(a, b), ratio).take(n).collect();
+            let mut carried = signal::from_iter(src.clone()).buffered(ring_buffer::Bounded::from_raw_parts(start, 0, vec![[9.0f64]; cap])).bus().send().delay(0);
+            let (a2, b2) = (carried.next(), carried.next());
+            let lin2: Vec<[f64; 1]> = Signal::by_ref(&mut carried).scale_hz(Linear::new(a2, b2), ratio).take(n).collect();
+            // and further down: rms over the converted signal, envelope over that
+            let tail = |v: Vec<[f64; 1]>| -> Vec<[f64; 1]> { signal::from_iter(v).rms(ring_buffer::Fixed::from(vec![[0.0f64]; 3])).detect_envelope(dasp_envelope::Detector::peak(2.0, 5.0)).take(n).collect() };
+            let mut p3 = signal::from_iter(src.clone()); let a3 = p3.next();
+            let chain: Vec<[f64; 1]> = p3.scale_hz(Floor::new(a3), ratio).rms(ring_buffer::Fixed::from(vec![[0.0f64]; 3])).detect_envelope(dasp_envelope::Detector::peak(2.0, 5.0)).take(n).collect();
+            let mut p4 = signal::from_iter(src.clone()); let a4 = p4.next();
+            let staged = tail(p4.scale_hz(Floor::new(a4), ratio).take(n).collect());
+            (lin, lin2, chain, staged)
+        });
+        st.count("compositions_carriers_converter_rms_envelope");
+        match r {
+            None => st.oracle_fail("a composition panicked", &case, "no panic", "panic"),
+            Some((lin, lin2, chain, staged)) => {
+                let bits = |v: &Vec<[f64; 1]>| v.iter().map(|f| f[0].to_bits()).collect::<Vec<_>>();
+                if bits(&lin) == bits(&lin2) && bits(&chain) == bits(&staged) { st.oracle_ok(2 * n as u64); }
+                else { st.oracle_fail("the converter over transparent carriers (buffered / bus output / delay(0) / by_ref), or the fused converter -> rms -> envelope chain, differs from the staged computation", &case, &format!("{:?} | {:?}", lin, staged), &format!("{:?} | {:?}", lin2, chain)); }
+            }
+        }
+    }
+}
+
 fn main() {
     let a = Args::parse();
     match a.stream.as_str() {
@@ -570,6 +615,7 @@ fn run(a: &Args) {
     let mut st = Stream::new(&a.out, "conv");
     let mut rng = Rng::new(a.seed, "conv");
     slow_glide(&mut st);
+    compositions(&mut st, &mut rng);
     let reps = if a.thorough() { 150 } else { 6 };
     // fixed corner cases: constructor assertion, the doc examples' ratio 0.5 on 3-4 frames
     for &s in &[0.0, -1.0, f64::NAN] {
